@@ -53,6 +53,9 @@ pub struct FloodScenario {
     pub withhold_settings_ack: bool,
     /// padding of the DATA frames of the tiny-data kind
     pub data_pad: Option<u8>,
+    /// tiny-data towards a server: every other flood item is a side stream whose small final DATA
+    /// frame (END_STREAM, never charged to the budget) is dropped unread by a handler that resets it
+    pub side_final: bool,
     pub pace: usize,
     pub sched: Sched,
     pub prof: [DirProfile; 2],
@@ -114,7 +117,7 @@ pub fn gen_flood_kinds(seed: u64, only: &[String]) -> FloodScenario {
         n = n.min(60);
     }
     let blockable = matches!(kind, "ping" | "settings" | "open-only" | "open-rst" | "open-wait-rst" | "push-open" | "data-on-closed" | "frames-on-reset" | "rst-closed" | "push-rst" | "push-complete");
-    FloodScenario {
+    let mut sc = FloodScenario {
         seed,
         e_server,
         kind,
@@ -131,10 +134,21 @@ pub fn gen_flood_kinds(seed: u64, only: &[String]) -> FloodScenario {
             1 => Some(rng.below(20) as u8),
             _ => None,
         },
+        side_final: false,
         pace: *rng.pick(&[0usize, 0, 1, 4, 25]),
         sched: gen_sched(&mut rng),
         prof,
+    };
+    // drawn last, so that every other scenario of a seed is what it was before this variant existed
+    if sc.e_server && sc.kind == "tiny-data" && rng.chance(1, 2) {
+        sc.side_final = true;
+        sc.app = AppMode::Hold;
+        sc.cfg.max_concurrent_streams = Some(sc.cfg.max_concurrent_streams.unwrap_or(8).max(3));
+        if sc.pace == 0 || sc.pace > 4 {
+            sc.pace = *rng.pick(&[1usize, 2, 4]);
+        }
     }
+    sc
 }
 
 impl FloodScenario {
@@ -142,7 +156,7 @@ impl FloodScenario {
         serde_json::json!({
             "seed": self.seed, "family": "flood", "e": if self.e_server { "server" } else { "client" }, "kind": self.kind, "variant": self.variant,
             "n": self.n, "cfg": self.cfg.to_json(), "lers": format!("{:?}", self.cfg.max_local_error_reset_streams), "budget": self.cfg.data_frame_budget,
-            "app": format!("{:?}", self.app), "polls_push": self.client_polls_push, "block_writes": self.block_writes, "withhold_window": self.withhold_window, "withhold_settings_ack": self.withhold_settings_ack, "data_pad": self.data_pad, "pace": self.pace,
+            "app": format!("{:?}", self.app), "polls_push": self.client_polls_push, "block_writes": self.block_writes, "withhold_window": self.withhold_window, "withhold_settings_ack": self.withhold_settings_ack, "data_pad": self.data_pad, "side_final": self.side_final, "pace": self.pace,
             "sched": format!("{:?}", self.sched), "prof": [format!("{:?}", self.prof[0]), format!("{:?}", self.prof[1])],
         })
     }
@@ -177,6 +191,7 @@ pub struct FloodReport {
     pub rst_codes: Vec<u32>,
     pub prelude_ok: bool,
     pub small_frame_overhead: u64,
+    pub side_streams: u64,
     pub target_rst_after_flood: Option<u32>,
     /// streams the peer opened, and those of them E answered with RST_STREAM, as seen at the very end
     pub opened_ids: Vec<u32>,
@@ -187,6 +202,7 @@ pub struct FloodReport {
 }
 
 struct FloodState {
+    side_streams: u64,
     big_list_size: usize,
     small_frame_overhead: u64,
     target: u32,
@@ -331,6 +347,24 @@ fn flood_item(p: &mut RawPeer, sc: &FloodScenario, st: &mut FloodState, i: usize
                     _ => 256,
                 }
             };
+            if sc.side_final && i % 2 == 1 {
+                // a side stream: request head and a small final DATA frame in one write; the handler (program 8)
+                // resets the stream and drops the body unread. Final frames are not charged to the budget,
+                // so discarding them must not top it up either.
+                if p.sh.conn_window < 1 {
+                    return false;
+                }
+                let side = p.alloc_sid();
+                if side > 0x7fff_fff0 {
+                    return false;
+                }
+                let block = p.encode_block(&request_fields(8, "POST", i));
+                headers(side, &block, false, None, None, 0, 0, out);
+                data(side, b"s", true, None, out);
+                p.sh.conn_window -= 1;
+                st.side_streams += 1;
+                return true;
+            }
             let sid = st.target;
             let iws = p.sh.e_iws;
             let sw = *p.sh.stream_window.entry(sid).or_insert(iws);
@@ -467,7 +501,7 @@ async fn flood_peer(mut p: RawPeer, sc: FloodScenario, len: usize, rep: Rc<RefCe
     if sc.withhold_window {
         p.auto_grant = false;
     }
-    let mut st = FloodState { big_list_size: 0, small_frame_overhead: 0, target: 0, parent: 0, next_promised: 2, cyc: 0, done: false };
+    let mut st = FloodState { side_streams: 0, big_list_size: 0, small_frame_overhead: 0, target: 0, parent: 0, next_promised: 2, cyc: 0, done: false };
     // ---- prelude: reach the state the flood needs
     if sc.e_server {
         match sc.kind {
@@ -580,6 +614,7 @@ async fn flood_peer(mut p: RawPeer, sc: FloodScenario, len: usize, rep: Rc<RefCe
         r.e_read_after_flood = e_read_total(&p);
         r.sent_after_flood = r.bytes_sent;
         r.small_frame_overhead = st.small_frame_overhead;
+        r.side_streams = st.side_streams;
         r.big_list_size = st.big_list_size;
         // outcome as seen right after the flood (before the epilogue lets the application go on)
         r.goaway_codes = p.sh.e_goaways.iter().map(|g| g.1).collect();
@@ -642,8 +677,12 @@ fn flood_specs(sc: &FloodScenario) -> Vec<StreamSpec> {
     hold.respond_when = RespondWhen::Immediately;
     let mut reset = plain_spec(7, "POST", vec![], vec![]);
     reset.server_reset = Some(8);
+    // program 8: the body is dropped without a read, then the stream is reset
+    let mut drop_unread = plain_spec(8, "POST", vec![], vec![]);
+    drop_unread.req_read.mode = ReadMode::StopAfter(0);
+    drop_unread.server_reset = Some(8);
     let _ = sc;
-    vec![fast, hold, reset]
+    vec![fast, hold, reset, drop_unread]
 }
 
 pub struct RunPeaks {
@@ -753,6 +792,10 @@ pub fn run_flood(sc: &FloodScenario) -> Outcome {
     stats.inc(&format!("flood.app.{:?}", sc.app).replace(|c: char| c == '(' || c == ')' || c.is_ascii_digit(), ""));
     if sc.block_writes {
         stats.inc("flood.with_blocked_writes");
+    }
+    if sc.side_final {
+        stats.inc("flood.side_final_scenarios");
+        stats.add("flood.side_final_streams", r1.side_streams + r8.side_streams);
     }
     stats.add("flood.items_sent", (r1.items_sent + r8.items_sent) as u64);
     stats.add("flood.bytes_sent", r1.bytes_sent + r8.bytes_sent);
